@@ -122,7 +122,7 @@ def thread_once(body):
             color[u] = 2
             stack2.pop()
     for si in sorted(reach):
-        if blocks[si].get('cleanup') or blocks[si].get('threaded'):
+        if blocks[si].get('cleanup') or blocks[si].get('thread_done'):
             continue
         src = _switch_source(blocks, si)
         if src is None:
@@ -262,7 +262,8 @@ def thread_once(body):
                     t2['arms'] = na
         if not changed:
             continue
-        nblocks[si]['threaded'] = True      # do not pick the original again
+        nblocks[si]['threaded'] = True
+        nblocks[si]['thread_done'] = True      # do not pick the original again (its copies may be threaded further)
         out = Body(nb, body.crate_kind)
         for a in ('key_in_facts', 'inlined', 'original', 'fused', 'yields'):
             if hasattr(body, a):
